@@ -1311,7 +1311,7 @@ namespace fsw
         void op_hash(const Step& st)
         {
             int s = st.actor % 3;
-            FS_VARIANTS("detour_equal", "cross_layout", "bytes_api", "bytes_in_place");
+            FS_VARIANTS("detour_equal", "cross_layout", "bytes_api", "bytes_in_place", "bytes_long_or_null");
             FS_SCOPE("hash", false);
             if (mode != M_C14) { skip("hash_outside_c14"); return; }
             last_threw = false;
@@ -1337,6 +1337,36 @@ namespace fsw
             {
                 cross_layout(s, std::integral_constant<bool, is_char>());
                 SIM_PROBE("hash_cross_layout");
+            }
+            else if (v == 4)
+            {
+                // (ii) pure half on buffers the strings do not provide: keys of 1000-4200 bytes in exact-size heap blocks, and
+                // the empty key given as (nullptr, 0)
+                uint64_t seed = (st.b & 3) == 0 ? 0 : st.b * 0x9e3779b97f4a7c15ULL;
+                if ((st.a & 7) == 0)
+                {
+                    uint64_t want64 = ref::murmur64a(nullptr, 0, seed);
+                    uint32_t want32 = ref::murmur2_32(nullptr, 0, static_cast<uint32_t>(seed));
+                    if (xtl::hash_bytes(nullptr, 0, static_cast<size_t>(seed)) != want64 || xtl::murmur2_x64(nullptr, 0, seed) != want64)
+                        viol("C14", "model", "murmur2_x64-ref", "the empty key given as (nullptr, 0) does not hash like any other empty key");
+                    if (xtl::murmur2_x86(nullptr, 0, static_cast<uint32_t>(seed)) != want32)
+                        viol("C14", "model", "murmur2_x86-ref", "the empty key given as (nullptr, 0) does not hash like any other empty key");
+                    SIM_PROBE("hash_of_null_empty_key");
+                }
+                else
+                {
+                    size_t nbytes = 1000 + static_cast<size_t>((st.a >> 3) % 3200);
+                    unsigned al = static_cast<unsigned>(st.c % 8);
+                    std::unique_ptr<unsigned char[]> blk(new unsigned char[nbytes + al]);
+                    Rng r(mix(st.b, 0x6c6f6e67, nbytes));
+                    for (size_t i = 0; i < nbytes + al; ++i) blk[i] = r.byte();
+                    const unsigned char* p = blk.get() + al;
+                    if (xtl::hash_bytes(p, nbytes, static_cast<size_t>(seed)) != ref::murmur64a(p, nbytes, seed)) viol("C14", "model", "hash_bytes-ref", "hash_bytes differs from reference MurmurHash64A (length " + std::to_string(nbytes) + ")");
+                    if (xtl::murmur2_x64(p, nbytes, seed) != ref::murmur64a(p, nbytes, seed)) viol("C14", "model", "murmur2_x64-ref", "murmur2_x64 differs from reference MurmurHash64A (length " + std::to_string(nbytes) + ")");
+                    if (xtl::murmur2_x86(p, nbytes, static_cast<uint32_t>(seed)) != ref::murmur2_32(p, nbytes, static_cast<uint32_t>(seed))) viol("C14", "model", "murmur2_x86-ref", "murmur2_x86 differs from reference MurmurHash2 (length " + std::to_string(nbytes) + ")");
+                    stats().add("c14.byte_hash_evaluations", 3);
+                    SIM_PROBE("hash_of_long_key");
+                }
             }
             else
             {
